@@ -129,7 +129,7 @@ func (s *Sim) judgeCleanPass(cs *cleanSnap, after map[string]treeEntry, minAge t
 					}
 				}
 			}
-			if rh, ok := cs.receiving[rel]; ok && ext == ".part" && hash == "" && !s.relDelivered(n, rel, rh) {
+			if rh, ok := cs.receiving[rel]; ok && ext == ".part" && hash == "" && cs.at.Sub(cs.mtime[k]) >= 24*time.Hour && s.relDelivered(n, rel, "") && !s.relDelivered(n, rel, rh) {
 				// no companion yet (it is written when the first part has been
 				// taken in), an earlier version of the name delivered, the file
 				// old by its time stamp: the cleaner takes it for a left-over of
